@@ -44,13 +44,16 @@ pub fn c20exec(args: &[String]) {
     std::thread::spawn(move || {
         let mut last = BEAT.load(Ordering::Relaxed);
         let mut since = std::time::Instant::now();
+        let mut since_cpu = cpu_ticks(None);
         loop {
             std::thread::sleep(std::time::Duration::from_millis(500));
             let now = BEAT.load(Ordering::Relaxed);
             if now != last {
                 last = now;
                 since = std::time::Instant::now();
-            } else if since.elapsed().as_secs() > 30 {
+                since_cpu = cpu_ticks(None);
+            } else if cpu_ticks(None) - since_cpu > 3000 || since.elapsed().as_secs() > 1200 {
+                // 30 s of CPU time (or 20 min of wall time) without a step forward
                 println!("{}", json!({"hang": *cur2.lock().unwrap()}));
                 std::process::exit(3);
             }
@@ -86,10 +89,20 @@ pub fn c20exec(args: &[String]) {
             Err(p) => (true, 0, panic_msg(p)),
         }
     };
-    for &t in &grid {
-        for &e in &grid {
+    // estimates whose sample ends in a segment shorter than one k-mer (1, 8, 15 bytes) or exactly one (16), and sources a
+    // little longer than those samples (DictBuilder!GridE / GridT)
+    let mut grid_e = grid.clone();
+    grid_e.extend_from_slice(&[524544, 526336, 528128, 1052672]);
+    let mut grid_t = grid.clone();
+    grid_t.extend_from_slice(&[2156, 4200]);
+    for &t in &grid_t {
+        for &e in &grid_e {
             for &d in &grid {
                 if quick && (t + e + d) % 3 == 1 && t > 101 && e > 101 {
+                    continue;
+                }
+                // the builder needs about a second per 1000 source bytes with these large samples: only the sources near them
+                if e > 100000 && (t > 4200 || (quick && d > 4096)) {
                     continue;
                 }
                 for kind in &kinds {
@@ -153,4 +166,16 @@ pub fn c20exec(args: &[String]) {
         specials.push(json!({"T": t, "E": e, "D": d, "panic": panic, "len": len, "ok": ok, "message": msg}));
     }
     write_json(&args[3], &json!({"runs": n, "panics": panics, "first": bad, "specials": specials, "fill_cases": fill_cases}));
+}
+
+/// c20one <T> <E> <D>: one run on a pseudo-random source, prints the time
+pub fn c20one(args: &[String]) {
+    let (t, e, d): (usize, usize, usize) = (args[0].parse().unwrap(), args[1].parse().unwrap(), args[2].parse().unwrap());
+    let mut c = 12345u32;
+    let src: Vec<u8> = (0..t).map(|_| { c = c.wrapping_mul(1103515245).wrapping_add(12345); (c >> 16) as u8 }).collect();
+    fastrand::seed(7);
+    let t0 = std::time::Instant::now();
+    let mut out: Vec<u8> = vec![];
+    ruzstd::dictionary::create_raw_dict_from_source(std::io::Cursor::new(src), e, &mut out, d);
+    println!("T={t} E={e} D={d}: {} bytes in {:?}", out.len(), t0.elapsed());
 }
